@@ -133,6 +133,40 @@ def gen_custom(rng, tier, index):
 
 PROBE_PULSE = 65535
 
+def wrap_with_decoy(tap_path, decoy, wd):
+    """Re-pack a TAP file as TZX standard-speed blocks and insert a *pilotless* pure-data block (TZX 0x14) holding a
+    plausible 'Bytes' header with ROM bit timings - optionally preceded by exactly one pulse.  A real load cannot
+    lock on to a block without a leader, so every configuration must ignore it."""
+    with open(tap_path, 'rb') as f:
+        tap = f.read()
+    blocks = []
+    i = 0
+    while i + 2 <= len(tap):
+        n = tap[i] | (tap[i + 1] << 8)
+        blocks.append(tap[i + 2:i + 2 + n])
+        i += 2 + n
+    hdr = bytes((0x00, 0x03)) + b'decoy     ' + _word(decoy['len']) + _word(decoy['addr']) + _word(0x8000)
+    par = 0
+    for b in hdr:
+        par ^= b
+    hdr += bytes((par,))
+    dblock = b''
+    if decoy.get('one_pulse'):
+        dblock += bytes((0x13, 1)) + _word(decoy['one_pulse'])
+    dblock += bytes((0x14,)) + _word(855) + _word(1710) + bytes((8,)) + _word(decoy['pause_ms']) + bytes((len(hdr), 0, 0)) + hdr
+    out = bytearray(b'ZXTape!\x1a\x01\x14')
+    pos = min(decoy['pos'], len(blocks))
+    for k, b in enumerate(blocks):
+        if k == pos:
+            out += dblock
+        out += bytes((0x10,)) + _word(1000) + _word(len(b)) + b
+    if pos >= len(blocks):
+        out += dblock
+    path = os.path.join(wd, 'decoy.tzx')
+    with open(path, 'wb') as f:
+        f.write(out)
+    return path
+
 def same_shape(name):
     """Other loader families whose sampling loop has the same length, IN offset and EAR mask (so that one can be
     copied over the other without moving the IN instruction) but different code."""
